@@ -171,6 +171,7 @@ func (s *scanner) ReadString() (String, error) {
 			return nil, err
 		}
 		if ignoreLF && b == 10 {
+			ignoreLF = false
 			continue
 		}
 		ignoreLF = false
